@@ -197,6 +197,10 @@ theorem quietStep_step (size : Nat → Nat) (l l' : Loop) (hs : l.Settled) (hq :
   | tick db' n ht => exact tick_step_db size l db' n ht
   | report _ a lost n h => exact Step.report l l' a lost n h
   | execute a => exact Step.execute l a
+  | progress a all =>
+    rcases progress_step size l a all with h | h
+    · exact h
+    · rw [h]; exact Step.dbLocal l l.db rfl rfl rfl
   | schedule cx draws rest rs db' n hcx hh hm hap =>
     have hrs : rs = [] := by
       have := healthy_round_is_empty l.db cx draws hcx hh hs.noKill
